@@ -37,6 +37,16 @@ def run(ctx, rep):
     from props import c06
     c06.write_rules(ctx, rep)
     inventory(ctx, rep)
+    # "exactly the configured ... program name, admin password": both travel through the shared fixed-width text writer, which
+    # must keep the encoded text up to the field's width (C11's R11.3: exact width / content on the writer's path table)
+    from props import c11
+    before = len(rep.instances)
+    keep = dict(rep.floors)
+    c11.length_domain(ctx, rep)
+    rep.instances[before:] = [i for i in rep.instances[before:] if i["rule"] == "R11.3"]
+    for r_ in list(rep.floors):
+        if r_ not in keep and r_ != "R11.3":
+            rep.floors.pop(r_)
 
 
 def is_ref_helper(ctx, d):
